@@ -721,9 +721,16 @@ fn main() {
     let mut total: BTreeMap<&'static str, u64> = BTreeMap::new();
     let (mut mism, mut comps, mut moved, mut freed) = (0, 0, 0, 0);
     for s in 0..sessions {
-        // the user's auto-correct file: in even sessions a well-formed JSON document whose replacements are not UTF-8
-        // (to be ignored as damaged - nothing of it may reach a returned string), in odd sessions a valid one
-        let ac: &[u8] = if s % 2 == 0 { b"{\"a\":\"caf\xE9\",\"m\":\"t\xFFmar\",\"am\":\"\xC3\x28\",\"ami\":\"x\xE9\",\"k\":\"\xFF\"}" } else { b"{\"a\":\"amar\",\"ami\":\"tumi\",\"k\":\"kO\"}" };
+        // the user's auto-correct file: in a third of the sessions a well-formed JSON document whose replacements are not UTF-8
+        // (to be ignored as damaged - nothing of it may reach a returned string), in a third a valid one
+        // (a third of the sessions: a valid document whose replacements contain U+0000, written as the JSON escape - a C
+        // string cannot carry it, so whatever the library makes of such an entry, what it hands out must still equal what
+        // the Rust API reports for the same object, and be freed with the size it was allocated with)
+        let ac: &[u8] = match s % 3 {
+            0 => b"{\"a\":\"caf\xE9\",\"m\":\"t\xFFmar\",\"am\":\"\xC3\x28\",\"ami\":\"x\xE9\",\"k\":\"\xFF\"}",
+            1 => b"{\"a\":\"ka\\u0000la\",\"k\":\"\\u0000\",\"m\":\"a\\u0000\",\"ami\":\"\\u0000i\",\"i\":\"i\"}",
+            _ => b"{\"a\":\"amar\",\"ami\":\"tumi\",\"k\":\"kO\"}",
+        };
         std::fs::write(format!("{root}/openbangla-keyboard/autocorrect.json"), ac).expect("user file");
         let mut d = Drv {
             rng: Rng((seed.wrapping_mul(0x9E37_79B9_7F4A_7C15) ^ (s + 1).wrapping_mul(0xD1B5_4A32_D192_ED03)) | 1),
